@@ -994,3 +994,34 @@ mutant("pzx-compass-left-counts-right", "C11", PZ + "compass.py", "            s
 mutant("pzx-geradeweg-vertical-uses-horizontal", "C11", PZ + "geradeweg.py", "                        line_length(reversed(list(grid_frame.vertical[:y, x])))\n                        + line_length(grid_frame.vertical[y:, x])", "                        line_length(reversed(list(grid_frame.vertical[:y, x])))\n                        + line_length(grid_frame.vertical[y + 1:, x])", "PZ-X")
 mutant("pzx-view-same-number-adjacent", "C11", PZ + "view.py", "    solver.ensure((has_number[:, :-1] & has_number[:, 1:]).then(nums[:, :-1] != nums[:, 1:]))\n", "", "PZ-X")
 mutant("pzx-fivecells-border-count-off", "C11", PZ + "fivecells.py", "                always_border = 4 - len(borders)", "                always_border = 3 - len(borders)", "PZ-X")
+
+# ---- constructs learnt from the fifth seeding round ----------------------------------------------------
+mutant("vid5-ensure-two-passes", "C01", SOLVER, """        for x in flatten_iterator(*constraint):
+            if isinstance(x, (BoolExpr, bool)):
+                self.constraints.append(x)
+            else:
+                raise TypeError("each element in 'constraint' must be BoolExpr-like")""", """        for x in flatten_iterator(*constraint):
+            if not isinstance(x, (BoolExpr, bool)):
+                raise TypeError("each element in 'constraint' must be BoolExpr-like")
+        self.constraints.extend(flatten_iterator(*constraint))""", "VID-5")
+variant("vid5-ensure-collect-then-extend", "C01", SOLVER, """        for x in flatten_iterator(*constraint):
+            if isinstance(x, (BoolExpr, bool)):
+                self.constraints.append(x)
+            else:
+                raise TypeError("each element in 'constraint' must be BoolExpr-like")""", """        items = list(flatten_iterator(*constraint))
+        for x in items:
+            if not isinstance(x, (BoolExpr, bool)):
+                raise TypeError("each element in 'constraint' must be BoolExpr-like")
+            self.constraints.append(x)""")
+mutant("ref-skip-first-solve-when-sol-present", "C02", SOLVER, """        if not csp_solver.solve():
+            # inconsistent problem
+            return False""", """        if any(v.sol is None for v in self.variables) and not csp_solver.solve():
+            # inconsistent problem
+            return False""", "REF-E")
+mutant("rng2-seed-only-when-switched-on", "C19", "cspuz/generator/srandom.py", """    _use_deterministic_prng = enabled
+    if enabled:
+        if seed is None:
+            seed = 0
+        drandom.seed(seed)""", """    if enabled and not _use_deterministic_prng:
+        drandom.seed(0 if seed is None else seed)
+    _use_deterministic_prng = enabled""", "RNG-2")
